@@ -26,6 +26,8 @@ ATTR = [
  ("fix: FftFilterFloat was retired at end of input", ["C05"]),
  ("fix: Blackman and Blackman-Harris windows", ["C11"]),
  ("fix: HdlcDeframer panicked on frames shorter", ["C13", "C15"]),
+ ("fix: TcpSource panicked or corrupted a sample", ["C14", "C15"]),
+ ("fix: TcpSource reported EOF when its output", ["C14", "C09"]),
 ]
 log = subprocess.run(["git", "-C", "/repo", "log", "--reverse", "--format=%h\t%s", "--grep", "^fix:"],
                      capture_output=True, text=True).stdout.strip().splitlines()
